@@ -85,7 +85,7 @@ func extractMapRanges(pkgs []*pkgFiles) []mapRange {
 			continue
 		}
 		// struct fields and package-level vars with map types
-		mapFields := map[string]bool{}          // field name -> map-typed in every struct of the package that has it
+		mapFields := map[string]bool{}               // field name -> map-typed in every struct of the package that has it
 		structFields := map[string]map[string]bool{} // struct -> field -> is map
 		mapVars := map[string]bool{}
 		namedMapTypes := map[string]bool{}
